@@ -244,7 +244,20 @@ func (w *walker) orderBy(o sqlparser.OrderBy) *cn {
 	}
 	out := n("OrderBy", "")
 	for _, x := range o {
-		out.C = append(out.C, n("Order", x.Direction, w.expr(x.Expr)))
+		dir := x.Direction
+		// The printer omits the direction of `order by null` and `order by rand()`. Sorting by a
+		// constant NULL or by an unseeded random value means the same in either direction, so the
+		// direction is not part of the canonical form there (rand(seed) keeps it: its sequence is
+		// reproducible, so the direction matters).
+		switch e := x.Expr.(type) {
+		case *sqlparser.NullVal:
+			dir = "any"
+		case *sqlparser.FuncExpr:
+			if e.Name.Lowered() == "rand" && len(e.Exprs) == 0 && e.Qualifier.IsEmpty() {
+				dir = "any"
+			}
+		}
+		out.C = append(out.C, n("Order", dir, w.expr(x.Expr)))
 	}
 	return out
 }
